@@ -1079,6 +1079,29 @@ def r_bfs(ctx):
         rebind_nodes = {d.node for d in rebind}
         for x in f.nodes:
             if x.id in body and isinstance(x.stmt, ast.Break) and x.loops[-1] == nd.id:
+                if not any(r in dom[x.id] for r in rebind_nodes) and x.conds:
+                    # the guard of the break: leaving because the FRONTIER is empty returns the empty frontier (sound);
+                    # leaving because something else (the new level) is empty returns the stale frontier (the witness below)
+                    test_, pol_, tid_ = x.conds[-1]
+                    names_ = {n_.id for n_ in ast.walk(test_) if isinstance(n_, ast.Name)} - {'len'}
+                    if names_ == {front}:
+                        tt_ = f.term(test_, f.nodes[tid_])
+                        fv_ = [y for y in walk_term(tt_) if y[0] == 'v' and y[1] == front]
+                        empt = None
+                        if fv_:
+                            empt = _empty_when(tt_, fv_[0], pol_)
+                        if empt is True:
+                            run.ok('R-BFS', f, 'depth-loop#%d:early-exit-after-rebind' % (i + 1), x.lineno,
+                                   'the level loop is left when the frontier itself is empty: the empty frontier is returned')
+                            continue
+                        if empt is None:
+                            run.undecided('R-BFS', f, 'depth-loop#%d:early-exit-after-rebind' % (i + 1), x.lineno,
+                                          'the guard %s of the early exit is not classified' % ast.unparse(test_)[:50])
+                            continue
+                    elif front in names_ or not names_:
+                        run.undecided('R-BFS', f, 'depth-loop#%d:early-exit-after-rebind' % (i + 1), x.lineno,
+                                      'the guard %s of the early exit is not classified' % ast.unparse(test_)[:50])
+                        continue
                 run.check(any(r in dom[x.id] for r in rebind_nodes), 'R-BFS', f, 'depth-loop#%d:early-exit-after-rebind' % (i + 1),
                           x.lineno, 'the level loop is left only after the frontier was replaced',
                           'the level loop is left (break at line %d) before the frontier is replaced by the new level: a search '
@@ -1277,6 +1300,53 @@ def r_useless_kept(ctx):
              "is kept, so the result differs from connect_coding_graph" % show(arg)[:40],
              inputs='latter maps naming a successor that has no key, e.g. accessor_to_latter_map(connect_valid_graph(mask))')
     run.floor('R-KEEP', 'kept-successor appends in remove_useless', n, 1)
+
+
+def _empty_when(test, var, pol):
+    """does `test` having truth value `pol` mean that the collection `var` is empty?  True / False / None (not classified)"""
+    def ev(n):
+        # truth of the test for a collection of n items; only len() and truthiness of var are interpreted
+        def val(t):
+            if t == var:
+                return ('coll', n)
+            if t[0] == 'c':
+                return ('c', t[1])
+            if is_call(t, 'builtins.len') and len(t[2]) == 1 and t[2][0] == var:
+                return ('c', n)
+            if t[0] == 'attr' and t[1] == var and t[2] == 'size':
+                return ('c', n)
+            return None
+        def truth(t):
+            if t == var:
+                return n > 0
+            if t[0] == 'un' and t[1] == 'not':
+                r = truth(t[2])
+                return None if r is None else (not r)
+            if t[0] == 'cmp' and t[1] in ('<', '<=', '==', '!='):
+                a, b = val(t[2]), val(t[3])
+                if a is None or b is None:
+                    return None
+                if a[0] == 'coll' or b[0] == 'coll':
+                    # frontier == []  /  frontier != []
+                    other = b if a[0] == 'coll' else a
+                    if other[0] == 'c':
+                        return None
+                    return None
+                try:
+                    return {'<': a[1] < b[1], '<=': a[1] <= b[1], '==': a[1] == b[1], '!=': a[1] != b[1]}[t[1]]
+                except TypeError:
+                    return None
+            v_ = val(t)
+            if v_ is not None and v_[0] == 'c':
+                return bool(v_[1])
+            return None
+        return truth(test)
+    r0, r1, r2 = ev(0), ev(1), ev(2)
+    if None in (r0, r1, r2):
+        return None
+    if r0 == pol and r1 != pol and r2 != pol:
+        return True
+    return False
 
 
 def r_verts(ctx):
